@@ -69,8 +69,10 @@ def k_images(order):
     samples.set_compose(m.compose)
     paths = ["z.iso", "a.iso", "m/b.iso", "B.iso", "0.iso"]
     for i in order:
+        # part 2 is a unified image whose additional_variants (a caller-ordered list: content) is not in sorted order
         m.add("Server", "x86_64", samples.image(m, path=paths[i - 1], subvariant="S%d" % i,
-                                                sums={"sha256": "%x" % i * 64, "md5": "%x" % i * 32}))
+                                                sums={"sha256": "%x" % i * 64, "md5": "%x" % i * 32},
+                                                unified=(i == 2), av=(["Workstation", "Client", "Atomic"] if i == 2 else ())))
         if i == 1:
             m.add("Server", "ppc64le", samples.image(m, path="p.iso", subvariant="P"))
     return m
@@ -98,7 +100,9 @@ def k_modules(order):
         m.add("Server" if i % 2 else "Client", "x86_64", uids[i - 1], "tag", "p/m%d.yaml" % i, ["binary", "debug", "source"][i % 3], shared)
         if i in (1, 2):                        # the same module on a second arch, then a second category for one of them
             m.add("Server" if i % 2 else "Client", "ppc64le", uids[i - 1], "tag", "p/m%d.yaml" % i, "binary", shared)
-            m.add("Server" if i % 2 else "Client", "x86_64", uids[i - 1], "tag", "p/d%d.yaml" % i, "debug", ["dbg%d-0:1-1.noarch" % i])
+            # (several RPMs the entry does not list yet, next to one it does: their order is the caller's)
+            m.add("Server" if i % 2 else "Client", "x86_64", uids[i - 1], "tag", "p/d%d.yaml" % i, "debug",
+                  ["zdbg%d-0:1-1.noarch" % i, "common-0:1-1.noarch", "dbg%d-0:1-1.noarch" % i, "adbg%d-0:1-1.noarch" % i, "mdbg-0:1-1.noarch"])
     return m
 
 
@@ -164,11 +168,58 @@ def _between_extra_files(obj):
     obj.dump_for_tree(io.StringIO(), "Server", "x86_64", "Server/x86_64/os/")
 
 
+def _between_treeinfo(obj):
+    """Dumps with an explicit main variant (not the default one), and a refused one, between the default dumps."""
+    import io
+    names = sorted(v.uid for v in obj.variants.get_variants(recursive=False))
+    obj.dump(io.StringIO(), main_variant=names[-1])
+    try:
+        obj.dump(io.StringIO(), main_variant="NoSuchVariant")
+    except Exception:
+        pass
+
+
+def _between_images(obj):
+    """Queries between dumps: the identity of every image."""
+    from productmd.images import identify_image
+    for v in obj.images:
+        for a in obj.images[v]:
+            for img in obj.images[v][a]:
+                identify_image(img)
+
+
 ORDERED = {"extra_files"}                 # kinds whose part order is content
-BETWEEN = {"extra_files": _between_extra_files}
+BETWEEN = {"extra_files": _between_extra_files, "treeinfo_variants": _between_treeinfo, "images": _between_images}
 KINDS = {"extra_files": k_extra_files, "top_variants": k_top_variants, "child_variants": k_child_variants, "arches": k_arches, "path_entries": k_path_entries,
          "images": k_images, "rpms": k_rpms, "modules": k_modules, "platforms": k_platforms, "checksums": k_checksums,
          "image_table": k_image_table, "treeinfo_variants": k_treeinfo_variants}
+
+
+def _subseq(small, big):
+    it = iter(big)
+    return all(x in it for x in small)
+
+
+def caller_order(kind, order, text):
+    """Caller-ordered lists are content and keep their order: what the written bytes must show for the lists the builders passed."""
+    if kind == "images":
+        recs = [r for r in json.loads(text)["payload"]["images"]["Server"]["x86_64"] if r.get("unified")]
+        if 2 in order and [r.get("additional_variants") for r in recs] != [["Workstation", "Client", "Atomic"]]:
+            return "additional_variants written as %s, the caller's list is ['Workstation', 'Client', 'Atomic']" % [r.get("additional_variants") for r in recs]
+    elif kind == "modules":
+        mods = json.loads(text)["payload"]["modules"]
+        for i, (v, uid) in ((1, ("Server", "httpd:2.4")), (2, ("Client", "perl:5.26:1"))):
+            if i in order:
+                got = mods[v]["x86_64"][uid]["rpms"]
+                want = ["common-0:1-1.noarch", "zdbg%d-0:1-1.noarch" % i, "dbg%d-0:1-1.noarch" % i, "adbg%d-0:1-1.noarch" % i, "mdbg-0:1-1.noarch"]
+                if not _subseq(want, got):
+                    return "RPM list of %s written as %s, the caller passed them in the order %s" % (uid, got, want)
+    elif kind == "extra_files":
+        files = ["Server/x86_64/os/GPL", "Server/x86_64/os/EULA", "Server/x86_64/os/Server/x86_64/os/README", "Server/x86_64/osx/X", "a"]
+        got = [e["file"] for e in json.loads(text)["payload"]["extra_files"]["Server"]["x86_64"]]
+        if got != [files[i - 1] for i in order]:
+            return "extra files written as %s, added in the order %s" % (got, [files[i - 1] for i in order])
+    return None
 
 
 def worker(orders, dumps):
@@ -191,6 +242,11 @@ def worker(orders, dumps):
                 continue
             out[kind]["".join(map(str, order))] = [hashlib.sha1(t.encode()).hexdigest() for t in texts]
             text = texts[0]
+            for t_i, t in enumerate(texts):
+                bad = caller_order(kind, order, t)
+                if bad:
+                    fails.append("%s order %s dump #%d: %s" % (kind, order, t_i + 1, bad))
+                    break
             if text.lstrip().startswith("{"):
                 if text != json.dumps(json.loads(text), indent=4, sort_keys=True, separators=(",", ": ")):
                     fails.append("%s order %s: JSON output is not key-sorted with 4-space indentation" % (kind, order))
